@@ -77,7 +77,9 @@ func (c *Component) Resume() error {
 
 	if streamId, err = c.transport.Connect(); err != nil {
 		c.updateState(StatePermanentError)
-		return NewConnError(err, true)
+		// The transport has classified its failure (a refused or timed out dial, a connection cut during
+		// the stream header: transient); wrapping it in a permanent error would hide that.
+		return err
 	}
 
 	// Authentication
@@ -92,7 +94,9 @@ func (c *Component) Resume() error {
 	if err != nil {
 		c.closeRefused()
 		c.updateState(StatePermanentError)
-		return NewConnError(err, true)
+		// A connection cut before the server's answer is as transient as the same cut a moment earlier;
+		// an answer that cannot be read as XMPP is not.
+		return NewConnError(err, !connectionLost(err))
 	}
 
 	switch v := val.(type) {
